@@ -521,11 +521,93 @@ func phiWeb(v ssa.Value) map[ssa.Value]bool {
 func ruleL2Couple(r *core.Run) {
 	scope, _ := blockHookFuncs(r)
 	n := 0
+	stripConv := func(v ssa.Value) ssa.Value {
+		for {
+			c, ok := v.(*ssa.Convert)
+			if !ok {
+				return v
+			}
+			v = c.X
+		}
+	}
+	// judge: in function g, collection Y (ranged over by position) and slice X (indexed by that position).
+	// Returns false when Y is not the result of a call bounded by a count (the rule does not apply).
+	judge := func(g *ssa.Function, Y, X ssa.Value, keyFn *ssa.Function, at ssa.Instruction) bool {
+		res := r.Resolver(g)
+		ycall, ok := Y.(*ssa.Call)
+		if !ok {
+			return false
+		}
+		// the collection ranged over is produced by a call taking an integer count: a counter, or a length
+		var cnt ssa.Value
+		for _, a := range ycall.Call.Args {
+			if bt, ok := a.Type().Underlying().(*types.Basic); ok && bt.Info()&types.IsInteger != 0 && cnt == nil {
+				av := stripConv(a)
+				for v := range phiWeb(av) {
+					if b2, ok := v.(*ssa.BinOp); ok && b2.Op == token.ADD {
+						cnt = a
+					}
+				}
+				if lc, ok := av.(*ssa.Call); ok {
+					if bi, ok := lc.Call.Value.(*ssa.Builtin); ok && bi.Name() == "len" {
+						cnt = a
+					}
+				}
+			}
+		}
+		if cnt == nil {
+			return false
+		}
+		n++
+		yname, _ := res.CalleeName(&ycall.Call)
+		key := core.Key("L2-couple", r.KeyName(keyFn), "slice indexed by position in result of "+yname)
+		same := false
+		why := ""
+		cv := stripConv(cnt)
+		if lc, ok := cv.(*ssa.Call); ok {
+			// n == len(V): coupled when V is the indexed slice itself
+			if bi, ok := lc.Call.Value.(*ssa.Builtin); ok && bi.Name() == "len" && len(lc.Call.Args) == 1 {
+				V := lc.Call.Args[0]
+				same = V == X || normT(res.Of(V).String()) == normT(res.Of(X).String())
+				why = "the collection holds at most len(slice) items (the count asked for is the length of the indexed slice)"
+			}
+		} else {
+			// blocks where the slice grows / the counter grows
+			grow := listOriginOf(r, g, X).Blocks()
+			inc := map[*ssa.BasicBlock]bool{}
+			for v := range phiWeb(cv) {
+				if b2, ok := v.(*ssa.BinOp); ok && b2.Op == token.ADD {
+					inc[b2.Block()] = true
+				}
+			}
+			same = len(grow) == len(inc) && len(grow) > 0
+			for b2 := range grow {
+				if !inc[b2] {
+					same = false
+				}
+			}
+			why = "n is incremented exactly in the blocks that append to the slice (len(slice) == n)"
+		}
+		if same {
+			r.Assume("A-count: a selection routine asked for n items returns at most n")
+			r.Discharge("L2-couple", key, r.P.Pos(at.Pos()), "the slice is indexed by the position in a collection of at most n items, and "+why)
+		} else {
+			r.Violate("L2-couple", key, r.P.Pos(at.Pos()), fmt.Sprintf("a slice (%s) is indexed by the position in the result of a call bounded by a count (%s), but the count is neither the length of that slice nor a counter incremented in exactly the blocks that append to it: the index can exceed len(slice) and panic outside panic recovery", normT(res.Of(X).String()), normT(res.Of(cnt).String())))
+		}
+		return true
+	}
+	paramIdx := func(f *ssa.Function, v ssa.Value) int {
+		for i, p := range f.Params {
+			if ssa.Value(p) == v {
+				return i
+			}
+		}
+		return -1
+	}
 	for _, f := range r.P.SortedFuncs(scope) {
 		if r.P.IsGenerated(f) {
 			continue
 		}
-		res := r.Resolver(f)
 		for _, l := range cfgx.Loops(f) {
 			iff := cfgx.IfOf(l.Header)
 			if iff == nil {
@@ -543,30 +625,11 @@ func ruleL2Couple(r *core.Run) {
 				continue
 			}
 			Y := lc.Call.Args[0]
-			ycall, ok := Y.(*ssa.Call)
-			if !ok {
-				continue
-			}
-			// the collection ranged over is produced by a call taking an integer count
-			var cnt ssa.Value
-			for _, a := range ycall.Call.Args {
-				if bt, ok := a.Type().Underlying().(*types.Basic); ok && bt.Info()&types.IsInteger != 0 && cnt == nil {
-					av := a
-					if cvt, ok := av.(*ssa.Convert); ok {
-						av = cvt.X
-					}
-					for v := range phiWeb(av) {
-						if b2, ok := v.(*ssa.BinOp); ok && b2.Op == token.ADD {
-							cnt = a
-						}
-					}
-				}
-			}
-			if cnt == nil {
-				continue
-			}
 			// index sites S[i] inside the loop with i the loop's induction value and S another slice
-			for b := range l.Body {
+			for _, b := range f.Blocks {
+				if !l.Body[b] {
+					continue
+				}
 				for _, ins := range b.Instrs {
 					ia, ok := ins.(*ssa.IndexAddr)
 					if !ok || ia.Index != bo.X || ia.X == Y {
@@ -575,39 +638,29 @@ func ruleL2Couple(r *core.Run) {
 					if _, isSlice := ia.X.Type().Underlying().(*types.Slice); !isSlice {
 						continue
 					}
-					n++
-					yname, _ := res.CalleeName(&ycall.Call)
-					key := core.Key("L2-couple", r.KeyName(f), "slice indexed by position in result of "+yname)
-					// blocks where the slice grows / the counter grows
-					grow := map[*ssa.BasicBlock]bool{}
-					for v := range phiWeb(ia.X) {
-						if c, ok := v.(*ssa.Call); ok {
-							if bi, ok := c.Call.Value.(*ssa.Builtin); ok && bi.Name() == "append" {
-								grow[c.Block()] = true
+					if judge(f, Y, ia.X, f, ia) {
+						continue
+					}
+					// an extracted helper that receives both the collection and the slice: judged at its call sites
+					yi, xi := paramIdx(f, Y), paramIdx(f, ia.X)
+					if yi < 0 || xi < 0 || !r.P.Transparent(f) {
+						continue
+					}
+					for _, caller := range r.P.CG.In[f] {
+						if !scope[caller] {
+							continue
+						}
+						for _, site := range r.P.CG.Sites[caller] {
+							for _, c := range site.Callees {
+								if c != f || site.Instr.Common().IsInvoke() {
+									continue
+								}
+								args := site.Instr.Common().Args
+								if yi < len(args) && xi < len(args) {
+									judge(caller, args[yi], args[xi], caller, site.Instr)
+								}
 							}
 						}
-					}
-					inc := map[*ssa.BasicBlock]bool{}
-					cv := cnt
-					if cvt, ok := cv.(*ssa.Convert); ok {
-						cv = cvt.X
-					}
-					for v := range phiWeb(cv) {
-						if b2, ok := v.(*ssa.BinOp); ok && b2.Op == token.ADD {
-							inc[b2.Block()] = true
-						}
-					}
-					same := len(grow) == len(inc) && len(grow) > 0
-					for b2 := range grow {
-						if !inc[b2] {
-							same = false
-						}
-					}
-					if same {
-						r.Assume("A-count: a selection routine asked for n items returns at most n")
-						r.Discharge("L2-couple", key, r.P.Pos(ia.Pos()), "the slice is indexed by the position in a collection of at most n items, and n is incremented exactly in the blocks that append to the slice (len(slice) == n)")
-					} else {
-						r.Violate("L2-couple", key, r.P.Pos(ia.Pos()), fmt.Sprintf("a slice (%s) is indexed by the position in the result of a call bounded by a counter (%s), but the counter is not incremented in exactly the blocks that append to the slice: the index can exceed len(slice) and panic outside panic recovery", normT(res.Of(ia.X).String()), normT(res.Of(cnt).String())))
 					}
 				}
 			}
@@ -623,38 +676,68 @@ func ruleL2Couple(r *core.Run) {
 func ruleL2NilArg(r *core.Run) {
 	scope, _ := blockHookFuncs(r)
 	n := 0
-	for _, g := range r.P.SortedFuncs(scope) {
-		if r.P.IsGenerated(g) || len(g.Blocks) == 0 {
-			continue
+	// parameters that receive a constant nil from a caller in scope, or a caller's such parameter handed on without
+	// a dominating != nil test (helpers extracted from a hook receive the hook's parameters)
+	nilParams := map[*ssa.Function]map[int]bool{}
+	mark := func(g *ssa.Function, i int) bool {
+		if nilParams[g] == nil {
+			nilParams[g] = map[int]bool{}
 		}
-		// parameters that receive a constant nil from a caller in scope
-		nilParam := map[int]bool{}
-		for _, caller := range r.P.CG.In[g] {
-			if !scope[caller] {
+		if nilParams[g][i] {
+			return false
+		}
+		nilParams[g][i] = true
+		return true
+	}
+	for round := 0; round < 5; round++ {
+		changed := false
+		for _, caller := range r.P.SortedFuncs(scope) {
+			if r.P.IsGenerated(caller) || len(caller.Blocks) == 0 {
 				continue
 			}
+			var ck *guard.Checker
 			for _, site := range r.P.CG.Sites[caller] {
-				hit := false
-				for _, c := range site.Callees {
-					if c == g {
-						hit = true
-					}
-				}
-				if !hit {
-					continue
-				}
 				args := site.Instr.Common().Args
 				off := 0
 				if site.Instr.Common().IsInvoke() {
 					off = 1
 				}
 				for i, a := range args {
+					isNil := false
 					if c, ok := a.(*ssa.Const); ok && c.Value == nil && c.IsNil() {
-						nilParam[i+off] = true
+						isNil = true
+					} else if pa, ok := a.(*ssa.Parameter); ok {
+						for pi, q := range caller.Params {
+							if q == pa && nilParams[caller][pi] {
+								if ck == nil {
+									ck = &guard.Checker{P: r.P, Fn: caller, Res: r.Resolver(caller)}
+								}
+								if ok2, _ := ck.MustPass(site.Instr.Block(), []guard.Atom{guard.Ne(fmt.Sprintf("#%d", pi), "nil")}); !ok2 {
+									isNil = true
+								}
+							}
+						}
+					}
+					if !isNil {
+						continue
+					}
+					for _, g := range site.Callees {
+						if scope[g] && len(g.Blocks) > 0 && prog.InModule(pkgPathOf(g)) && mark(g, i+off) {
+							changed = true
+						}
 					}
 				}
 			}
 		}
+		if !changed {
+			break
+		}
+	}
+	for _, g := range r.P.SortedFuncs(scope) {
+		if r.P.IsGenerated(g) || len(g.Blocks) == 0 {
+			continue
+		}
+		nilParam := nilParams[g]
 		if len(nilParam) == 0 {
 			continue
 		}
